@@ -481,3 +481,75 @@ func verif_lemma_dnsquery_roundtrip(tranID uint16, flags uint16, name []byte, qt
 	vAssert(spec_be16(q, 2) == flags)
 	vAssert(spec_be16(q, 12+len(name)) == qtype && spec_be16(q, 14+len(name)) == 1)
 }
+
+// ---------- DHCPv4 encoder (C03 C07 C08) ----------
+
+func verif_inv_zeroes_1(b []byte, i int) bool { return 0 <= i && i <= len(b) }
+func verif_dec_zeroes_1(b []byte, i int) int  { return len(b) - i }
+func verif_frame_zeroes_1(b []byte) []byte    { return b }
+
+// VerifSpecOptionsSmall: at most 20 options of at most 32 bytes each (what the
+// library's own callers build); AppendOptions stages them in a 1024-byte buffer.
+func VerifSpecOptionsSmall(o DHCP4Options) bool {
+	return len(o) <= 20 && vMapAll(o, func(k DHCP4OptionCode, v []byte) bool { return len(v) <= 32 })
+}
+
+// (loop ordinals follow the position of the loop head instructions: the range-over-map loop is 1)
+func verif_inv_DHCP4_AppendOptions_2(options DHCP4Options, pos int, buffer []byte, rangeindex int, order []byte) bool {
+	return -1 <= rangeindex && rangeindex < len(order) && 0 <= pos && pos <= 680 && len(options) <= 20 && pos+34*len(options) <= 680 && len(buffer) == 1024 &&
+		vMapAll(options, func(k DHCP4OptionCode, v []byte) bool { return len(v) <= 32 })
+}
+
+func verif_inv_DHCP4_AppendOptions_1(options DHCP4Options, pos int, buffer []byte, rangecount int) bool {
+	return 0 <= pos && pos <= 680 && 0 <= rangecount && rangecount <= len(options) && len(options) <= 20 && pos+34*(len(options)-rangecount) <= 680 && len(buffer) == 1024 &&
+		vMapAll(options, func(k DHCP4OptionCode, v []byte) bool { return len(v) <= 32 })
+}
+
+//verif:props C03 C07 C08
+func verif_contract_DHCP4_AppendOptions(p DHCP4, options DHCP4Options, order []byte) int {
+	vRequires(VerifSpecOptionsSmall(options) && len(order) <= 32 && cap(p) >= 240)
+	vCanary()
+	vModifiesBytes(p[240:cap(p)])
+	vModifiesBytes(order[:cap(order)]) // append(order, ...) writes into the caller's spare capacity
+	vModifiesMems("map[github.com/irai/packet.DHCP4OptionCode]")
+	n := p.AppendOptions(options, order)
+	vEnsures(0 <= n && n <= 680)
+	return n
+}
+
+func verif_inv_EncodeDHCP4_1(p DHCP4, n int) bool { return 240 <= n && n <= len(p) && n <= 921 }
+func verif_dec_EncodeDHCP4_1(n int) int           { return 300 - n }
+func verif_frame_EncodeDHCP4_1(p DHCP4) []byte    { return p[240:] }
+
+// EncodeDHCP4 writes a BOOTP/DHCP message over b[:cap(b)]: fixed header, magic cookie,
+// the options (message type forced to mt) and the End option, padded to 300 bytes.
+// It needs room for the staged options: cap(b) >= 922 covers every options set
+// satisfying VerifSpecOptionsSmall (a smaller buffer makes p[n] = End index out of range).
+//
+//verif:props C03 C07 C08
+//verif:timeout 60s
+func verif_contract_EncodeDHCP4(b []byte, opcode DHCP4OpCode, mt DHCP4MessageType, chaddr net.HardwareAddr, ciaddr netip.Addr, yiaddr netip.Addr, xid []byte, broadcast bool, options DHCP4Options, order []byte) DHCP4 {
+	vRequires(cap(b) >= 922 && len(order) <= 32)
+	// order (typically the parameter request list of the request being answered in place)
+	// may live in b itself, but then behind the fixed header: append() writes into its spare capacity
+	vRequires(order == nil || !vSameRegion(order, b) || vOffset(order, b) >= 240)
+	vRequires(options == nil || (VerifSpecOptionsSmall(options) && len(options) <= 19))
+	vCanary()
+	vModifiesBytes(b[:cap(b)])
+	vModifiesBytes(order[:cap(order)])
+	vModifiesMems("map[github.com/irai/packet.DHCP4OptionCode]")
+	r := EncodeDHCP4(b, opcode, mt, chaddr, ciaddr, yiaddr, xid, broadcast, options, order)
+	vEnsures(r != nil && vSameRegion(r, b) && vOffset(r, b) == 0 && 300 <= len(r) && len(r) <= 921)
+	vEnsures(r[0] == byte(opcode) && r[1] == 1 && r[3] == 0)
+	vEnsures(chaddr != nil || r[2] == 6)
+	vEnsures(r[236] == 99 && r[237] == 130 && r[238] == 83 && r[239] == 99)
+	vEnsures(spec_be16(r, 8) == 0)
+	vEnsures((r[10]&0x80 != 0) == broadcast)
+	if yiaddr.Is4() {
+		vEnsures(spec_ip4_at(r, 16) == yiaddr)
+	}
+	if ciaddr.Is4() {
+		vEnsures(spec_ip4_at(r, 12) == ciaddr)
+	}
+	return r
+}
